@@ -1,7 +1,7 @@
 (* C03 - flow versions sort consistently with history.  The comparators are the independent ones the property demands:
    sv_lt (SemVer section 11, Spec/SemVerSpec.v) and pep_std_cmp (the public PEP 440 order, Spec/Pep440StdOrder.v). *)
 From Coq Require Import Lia.
-From ZV Require Import Str SemVer SemVerSpec Pep440 Pep440Spec Pep440StdOrder OrderFacts Pep440Order.
+From ZV Require Import Str SemVer SemVerSpec Pep440 Pep440Spec Pep440StdOrder OrderFacts Pep440Order Zerv Render Bump SemVerRoundTrip FlowLaw FlowOrder.
 Open Scope N_scope.
 
 Definition sv (x y z : N) (pre : option (list ident)) : semver :=
@@ -58,7 +58,27 @@ Proof.
   assert (E : N.compare p1 p2 = Lt) by (apply N.compare_lt_iff; assumption). rewrite E. reflexivity.
 Qed.
 
+(* COMPOSITION with the rendering and with the flow law (C04): an object whose version variables are (X, Y, Z+1) with a pre-release set,
+   rendered through a schema with the standard core that shows the pre-release variable, lies strictly between X.Y.Z and X.Y.(Z+1) in
+   SemVer precedence - for any such schema, any other variables, any build metadata *)
+Theorem c03_flow_version_between : forall z x y zz p,
+  s_core (z_schema z) = standard_core -> In (CVar PreRelease) (s_extra (z_schema z)) ->
+  v_major (z_vars z) = Some x -> v_minor (z_vars z) = Some y -> v_patch (z_vars z) = Some (zz + 1) -> v_pre (z_vars z) = Some p ->
+  u64 x -> u64 y -> u64 (zz + 1) ->
+  sv_lt {| sv_major := x; sv_minor := y; sv_patch := zz; sv_pre := None; sv_build := None |} (semver_of_zerv z) /\
+  sv_lt (semver_of_zerv z) {| sv_major := x; sv_minor := y; sv_patch := zz + 1; sv_pre := None; sv_build := None |}.
+Proof. exact flow_version_between. Qed.
+
+(* ... and off a final release X.Y.Z the flow law yields exactly such variables: patch Z+1 and a pre-release *)
+Theorem c03_law_off_final_release : forall vs opost lab n pamt dev x y zz,
+  v_major vs = Some x -> v_minor vs = Some y -> v_patch vs = Some zz -> v_pre vs = None ->
+  let vs' := law_vars vs opost lab n pamt dev in
+  v_major vs' = Some x /\ v_minor vs' = Some y /\ v_patch vs' = Some (zz + 1) /\ v_pre vs' = Some {| pr_label := lab; pr_num := Some n |}.
+Proof. exact law_vars_off_final. Qed.
+
 Print Assumptions c03_between_semver.
 Print Assumptions c03_post_monotone_semver.
 Print Assumptions c03_between_pep440.
 Print Assumptions c03_post_monotone_pep440.
+Print Assumptions c03_flow_version_between.
+Print Assumptions c03_law_off_final_release.
